@@ -16,6 +16,8 @@ use crate::table::{LARGEST_POWER_OF_FIVE, POWER_OF_FIVE_128, SMALLEST_POWER_OF_F
 #[must_use]
 #[inline(always)]
 pub fn lemire<F: LemireFloat>(num: &Number, lossy: bool) -> ExtendedFloat80 {
+    #[cfg(lexical_verif)]
+    lexical_util::verif::hit(lexical_util::verif::PARSE_LEMIRE);
     // If significant digits were truncated, then we can have rounding error
     // only if `mantissa + 1` produces a different result. We also avoid
     // redundantly using the Eisel-Lemire algorithm if it was unable to
